@@ -1,6 +1,6 @@
 From Coq Require Import List NArith Bool Arith.
 Import ListNotations.
-Require Import Sigtools.Model.Sched Sigtools.Proofs.Sched Sigtools.Proofs.SchedBounded Sigtools.Proofs.SchedGeneral.
+Require Import Sigtools.Model.Sched Sigtools.Proofs.Sched Sigtools.Proofs.SchedBounded Sigtools.Proofs.SchedGeneral Sigtools.Proofs.SchedForger.
 Open Scope nat_scope.
 
 Theorem C17_no_loss : forall (c : cfg) (init : store) (kinds : list kind) (sched : list nat), all_done (run c (init_state init kinds) sched) = true -> g_store (run c (init_state init kinds) sched) = init.
@@ -95,4 +95,16 @@ Print Assumptions C17_guard_sequential_exclusive.
 Theorem C17_guard_wrong_needs_overlap : forall (n : nat) (sched : list nat) (th : gthread), In th (gs_threads (grun (ginit n) sched)) -> g_is_done th = true /\ g_ans th <> 1%N \/ g_is_out th = true -> g_exclusive (ginit n) sched = false.
 Proof. exact @guard_wrong_needs_overlap. Qed.
 Print Assumptions C17_guard_wrong_needs_overlap.
+
+
+(* ---- the once-only lazy transform of _ForgerWrapper.__get__ (emulate=True forgers): any number of
+   threads doing first bindings under any interleaving bind the transformed function; with the two
+   statements swapped a second thread can bind the raw one (Proofs/SchedForger.v) ---- *)
+Theorem C17_forger_transform_sequential : forall (n : nat) (sched : list nat), (forall th : fthread, In th (fs_threads (frun false (finit n) sched)) -> f_is_done th = true -> f_ans th = 1%N) /\ (fs_flag (frun false (finit n) sched) = true -> fs_wrapped (frun false (finit n) sched) = true).
+Proof. exact @SchedForger.forger_transform_sequential. Qed.
+Print Assumptions C17_forger_transform_sequential.
+
+Theorem C17_forger_swapped_refuted : exists (sched : list nat) (th : fthread), nth_error (fs_threads (frun true (finit 2) sched)) 1 = Some th /\ f_is_done th = true /\ f_ans th = 2%N /\ f_all_done (frun true (finit 2) sched) = true /\ fs_wrapped (frun true (finit 2) sched) = true.
+Proof. exact @SchedForger.forger_swapped_refuted. Qed.
+Print Assumptions C17_forger_swapped_refuted.
 
